@@ -7,7 +7,7 @@ import datetime as dt
 import numpy as np
 import pandas as pd
 
-SHAPES = ["daily_series_utc", "hourly_frame_chicago", "billing_frame_utc", "daily_frame_kolkata", "daily_intframe_utc"]      # intframe: whole-number readings in an integer column
+SHAPES = ["daily_series_utc", "hourly_frame_chicago", "billing_frame_utc", "daily_frame_kolkata", "daily_intframe_utc", "hourly_series_utc_limits_chicago"]      # limits_chicago: the requested end / start are written in another zone than the data (the same instants)      # intframe: whole-number readings in an integer column
 _fn = {}
 
 
@@ -23,6 +23,8 @@ def _scale(shape):
         return 1, pd.Timestamp("2019-03-01T00:00:00Z"), "UTC", False
     if shape == "daily_intframe_utc":
         return 1, pd.Timestamp("2019-06-01T00:00:00Z"), "UTC", True
+    if shape == "hourly_series_utc_limits_chicago":
+        return 1, pd.Timestamp("2019-07-01T00:00:00Z"), "UTC", False
     if shape == "hourly_frame_chicago":
         return 1, pd.Timestamp("2019-03-08T19:00:00Z"), "America/Chicago", True      # the March clock change (10 March 08:00Z) falls 1.5 days after the base: inside even the quick timeline
     if shape == "billing_frame_utc":
@@ -49,6 +51,8 @@ def build(cin, shape):
         data = pd.Series(vals, index=index, name="value")
     kw = {}
     conv = (lambda t: (base + half * t).tz_convert(tz))
+    if shape == "hourly_series_utc_limits_chicago":
+        conv = (lambda t: (base + half * t).tz_convert("America/Chicago"))
     if shape == "billing_frame_utc":   # plain datetime limits as the repository's own tests use
         conv = (lambda t: (base + half * t).to_pydatetime())
     kw["end"] = conv(cin["endp"]) if cin["hasEnd"] else None
